@@ -358,6 +358,10 @@ def run_case(ctx, case):
         sig = out_sig(mo)
         if is_generic(sig) and not is_generic(sig0):
             sig = sig0
-        ctx.violation(sig, {"query": mq, "tree": mo["tree"], "rendered": mo["lucene"],
+        fine = sig
+        if ":" in sig and "panic@" not in sig:
+            # <node type>:<feature> -> <feature>: the renderer has one escaping routine per feature
+            sig = "render:" + sig.split(":", 1)[1]
+        ctx.violation(sig, {"fine_signature": fine, "query": mq, "tree": mo["tree"], "rendered": mo["lucene"],
                             "reparsed": mo.get("tree2"), "reparse_error": mo.get("reparse_error"),
                             "original_query": q}, case={"queries": [mq]})
